@@ -1,4 +1,283 @@
-import CoclsModel.Async
+import CoclsModel.AsyncProofs
+/-!
+# C04 — an async coroutine runs once, delivers to its bound party, frees once
+
+Model: `CoclsModel/Async.lean`.  A program is any family of scripts `prog : Nat → List Act` (acts: compute, await an
+external future, `co_await` / `start()`-and-await a child — nesting of any depth, since children are scripts again —,
+detach a child (discarded or awaited suspend point), drop a child unstarted, throw, return) together with `nExt`
+driver-owned promises.  A *schedule* is an operation list: driver operations (`create`, `dropU` = `~async` unstarted,
+`detach`, `start` = `start()` / `future<T>(async)` / returning it from a `future<T>` coroutine / `join` / `thread_pool::run`
+— they all go through `async::start_promise` on a fresh promise —, `startP` = `start(promise)`, `setF`/`dropP` =
+the driver resolves / drops a promise) interleaved in any way with micro-steps `step c` of any coroutine.  Every theorem
+quantifies over **all programs, all `nExt` and all schedules** (`Reachable`), i.e. every start mode × completion mode
+× interleaving × nesting depth; the ghost counters are cumulative over the whole history.
+-/
 namespace Cocls.Async
-theorem c04_placeholder : True := trivial
+
+/-- every state reachable by some schedule of the program -/
+def Reachable (prog : Nat → List Act) (nExt : Nat) (s : State) : Prop := ∃ ops, s = run (init prog nExt) ops
+
+theorem reachable_inv {prog : Nat → List Act} {nExt : Nat} {s : State} (h : Reachable prog nExt s) : Inv s := by
+  obtain ⟨ops, rfl⟩ := h
+  exact inv_run _ ops (inv_init prog nExt)
+
+theorem reachable_run {prog : Nat → List Act} {nExt : Nat} {s : State} (h : Reachable prog nExt s) (ops : List Op) :
+    Reachable prog nExt (run s ops) := by
+  obtain ⟨ops0, rfl⟩ := h
+  exact ⟨ops0 ++ ops, by simp [run, List.foldl_append]⟩
+
+/-- **Body exactly once.**  On every schedule the number of times the body of `c` has begun is 1 if `c` is in a state
+past the beginning of its body and 0 otherwise, never more; the number of successful start operations is 1 iff the handle
+has left the `async` object; and the body never begins without (or more often than) a successful start. -/
+theorem c04_body_once {prog : Nat → List Act} {nExt : Nat} {s : State} (h : Reachable prog nExt s) (c : Nat) :
+    (s.co c).bodyStarts = (if (s.co c).st.began then 1 else 0)
+    ∧ (s.co c).startsOk = (if (s.co c).st.started then 1 else 0)
+    ∧ (s.co c).bodyStarts ≤ (s.co c).startsOk ∧ (s.co c).startsOk ≤ 1 := by
+  have hc := (reachable_inv h).co_ok c
+  refine ⟨hc.body, hc.starts, ?_, ?_⟩
+  · rw [hc.body, hc.starts]; cases (s.co c).st <;> simp [St.began, St.started]
+  · rw [hc.starts]; split <;> omega
+
+/-- **Frame, arguments and locals destroyed exactly once.**  The frame has been freed once iff the coroutine is `done`
+(ran to its end) or `dropped` (destroyed unstarted), never twice; the arguments die with the frame; the locals have been
+destroyed once iff the body ran to its end; a frame is only freed if it was allocated, and it is allocated once. -/
+theorem c04_frame_once {prog : Nat → List Act} {nExt : Nat} {s : State} (h : Reachable prog nExt s) (c : Nat) :
+    (s.co c).frameFrees = (if (s.co c).st.freed then 1 else 0)
+    ∧ (s.co c).argDtors = (s.co c).frameFrees
+    ∧ (s.co c).localDtors = (if (s.co c).st = St.done then 1 else 0)
+    ∧ (s.co c).allocs = (if (s.co c).st = St.absent then 0 else 1)
+    ∧ (s.co c).frameFrees ≤ (s.co c).allocs := by
+  have hc := (reachable_inv h).co_ok c
+  refine ⟨hc.frees, hc.args, hc.locals, hc.allocs, ?_⟩
+  rw [hc.frees, hc.allocs]; cases (s.co c).st <;> simp [St.freed]
+
+/-- A destroyed frame stays destroyed: once `done` or `dropped`, no later operation of any schedule changes that
+(so "exactly once" holds for the whole future of the run, not only up to now). -/
+theorem c04_final_forever {prog : Nat → List Act} {nExt : Nat} {s : State} (_h : Reachable prog nExt s) (c : Nat)
+    (ops : List Op) :
+    ((s.co c).st = St.done → ((run s ops).co c).st = St.done)
+    ∧ ((s.co c).st = St.dropped → ((run s ops).co c).st = St.dropped) :=
+  ⟨(le_run s ops c).2, (le_run s ops c).1⟩
+
+/-- **Delivery to exactly the bound party.**  When the coroutine has finished, its result was stored into exactly
+the futures `bound.toList` — its bound future, nobody when detached — and that future is ready, holds exactly the
+outcome the body produced, and was written once, by `c`. -/
+theorem c04_delivery {prog : Nat → List Act} {nExt : Nat} {s : State} (h : Reachable prog nExt s) (c : Nat)
+    (hd : (s.co c).st = St.done) :
+    (s.co c).deliveredTo = (s.co c).bound.toList
+    ∧ (s.co c).outcome.isSome = true
+    ∧ ∀ f, (s.co c).bound = some f →
+        (s.fut f).ready = true ∧ (s.fut f).out = (s.co c).outcome ∧ (s.fut f).setBy = [some c] := by
+  have hi := reachable_inv h
+  have hc := hi.co_ok c
+  refine ⟨by rw [hc.deliv]; simp [hd], by rw [hc.outc]; simp [hd], fun f hf => hi.bound_done c f hf hd⟩
+
+/-- Nothing is delivered early or to anybody else: before the coroutine has finished it has stored nothing anywhere and
+its bound future is still unresolved and empty; a detached coroutine never delivers anything. -/
+theorem c04_no_early_delivery {prog : Nat → List Act} {nExt : Nat} {s : State} (h : Reachable prog nExt s) (c : Nat) :
+    ((s.co c).st ≠ St.done → (s.co c).deliveredTo = [] ∧ (s.co c).outcome = none
+        ∧ ∀ f, (s.co c).bound = some f → (s.fut f).ready = false ∧ (s.fut f).out = none ∧ (s.fut f).setBy = [])
+    ∧ ((s.co c).bound = none → (s.co c).deliveredTo = []) := by
+  have hi := reachable_inv h
+  have hc := hi.co_ok c
+  constructor
+  · intro hd
+    refine ⟨by rw [hc.deliv]; simp [hd], ?_, fun f hf => hi.bound_live c f hf hd⟩
+    have := hc.outc
+    cases ho : (s.co c).outcome
+    · rfl
+    · rw [ho] at this; simp [hd] at this
+  · intro hb; rw [hc.deliv, hb]; simp
+
+/-- A future receives at most one value over the whole run, and if a coroutine `c` stored it, then `c` is the
+coroutine bound to that future and it has finished: results never reach a future of another party. -/
+theorem c04_delivery_exclusive {prog : Nat → List Act} {nExt : Nat} {s : State} (h : Reachable prog nExt s) (f : Nat) :
+    (s.fut f).setBy.length ≤ 1
+    ∧ ∀ c, some c ∈ (s.fut f).setBy → (s.co c).bound = some f ∧ (s.co c).st = St.done := by
+  have hi := reachable_inv h
+  by_cases hb : ∃ c', (s.co c').bound = some f
+  · obtain ⟨c', hc'⟩ := hb
+    by_cases hd : (s.co c').st = St.done
+    · have := (hi.bound_done c' f hc' hd).2.2
+      rw [this]; refine ⟨by simp, ?_⟩
+      intro c hc; simp at hc; subst hc; exact ⟨hc', hd⟩
+    · have := (hi.bound_live c' f hc' hd).2.2
+      rw [this]; simp
+  · have hb' : ∀ c, (s.co c).bound ≠ some f := fun c hc => hb ⟨c, hc⟩
+    rcases hi.unbound_set f hb' with e | e
+    · rw [e]; simp
+    · rw [e.1]; simp
+
+/-- What an awaiting coroutine receives is the outcome of the coroutine bound to the awaited future: whenever `c` has been
+made resumable by future `f` (or finds it ready) and `j` is bound to `f`, then `j` has finished, its frame is gone, and `f`
+holds exactly what `j`'s body produced — which is what `consume` hands to `c` (`c04_consume_reads`). -/
+theorem c04_await_receives_bound_outcome {prog : Nat → List Act} {nExt : Nat} {s : State} (h : Reachable prog nExt s)
+    (c j f : Nat) (hb : (s.co j).bound = some f) (hr : (s.fut f).ready = true) (_hc : (s.co c).st.refs f = true) :
+    (s.co j).st = St.done ∧ (s.fut f).out = (s.co j).outcome ∧ (s.co j).frameFrees = 1 := by
+  have hi := reachable_inv h
+  have hd : (s.co j).st = St.done := by
+    cases hd : decide ((s.co j).st = St.done)
+    · have := (hi.bound_live j f hb (by simpa using hd)).1; rw [hr] at this; cases this
+    · simpa using hd
+  refine ⟨hd, (hi.bound_done j f hb hd).2.1, ?_⟩
+  rw [(hi.co_ok j).frees]; simp [hd, St.freed]
+
+/-- decision logic of `await_resume`: the value/exception taken is the content of the future (cancellation when the promise
+was dropped); a value is added to the accumulator and logged, an exception is logged when caught and otherwise becomes the
+outcome of the awaiting coroutine itself (propagation along the `co_await` chain). -/
+theorem c04_consume_reads (s : State) (c f : Nat) (ct : Bool) :
+    (∀ v, (s.fut f).out = some (Outcome.val v) →
+        ((consume s c f ct).co c).saw = (f, Outcome.val v) :: (s.co c).saw ∧ ((consume s c f ct).co c).acc = (s.co c).acc + v)
+    ∧ (∀ o, ((s.fut f).out).getD Outcome.canceled = o → (∀ v, o ≠ Outcome.val v) → ct = false →
+        consume s c f ct = finish s c o) := by
+  constructor
+  · intro v hv; simp [consume, hv, setCo]
+  · intro o ho hne hct
+    unfold consume
+    rw [ho]
+    cases o with
+    | val v => exact absurd rfl (hne v)
+    | exc e => simp [hct]
+    | canceled => simp [hct]
+
+/-- **Destroyed without being started.**  Such a coroutine never ran (and never will, `c04_final_forever`), its arguments
+were destroyed exactly once with the frame, no locals ever existed, nothing was delivered, nobody was bound. -/
+theorem c04_unstarted {prog : Nat → List Act} {nExt : Nat} {s : State} (h : Reachable prog nExt s) (c : Nat)
+    (hd : (s.co c).st = St.dropped) :
+    (s.co c).bodyStarts = 0 ∧ (s.co c).argDtors = 1 ∧ (s.co c).frameFrees = 1 ∧ (s.co c).localDtors = 0
+    ∧ (s.co c).deliveredTo = [] ∧ (s.co c).outcome = none ∧ (s.co c).bound = none ∧ (s.co c).startsOk = 0 := by
+  have hc := (reachable_inv h).co_ok c
+  have h1 := hc.body; have h2 := hc.frees; have h3 := hc.args; have h4 := hc.locals
+  have h5 := hc.deliv; have h6 := hc.outc; have h7 := hc.unb; have h8 := hc.starts
+  simp [hd, St.began, St.freed, St.started] at h1 h2 h4 h5 h6 h7 h8
+  exact ⟨h1, by omega, h2, h4, h5, h6, h7, h8⟩
+
+/-- as long as the handle sits in the `async` object the body has not run, nothing was freed, nothing is bound -/
+theorem c04_unstarted_idle {prog : Nat → List Act} {nExt : Nat} {s : State} (h : Reachable prog nExt s) (c : Nat)
+    (hu : (s.co c).st = St.unstarted) :
+    (s.co c).bodyStarts = 0 ∧ (s.co c).frameFrees = 0 ∧ (s.co c).argDtors = 0 ∧ (s.co c).bound = none := by
+  have hc := (reachable_inv h).co_ok c
+  have h1 := hc.body; have h2 := hc.frees; have h3 := hc.args; have h7 := hc.unb
+  simp [hu, St.began, St.freed, St.started] at h1 h2 h7
+  exact ⟨h1, h2, by omega, h7⟩
+
+/-- **`start(promise)` on an already claimed promise** returns `false`, leaves the coroutine unstarted (handle still in the
+`async` object, not bound, body not run — `c04_unstarted_idle`) and changes nothing else; on an unclaimed promise it
+returns `true`, claims it and binds the coroutine to exactly that future. -/
+theorem c04_claimed_promise (s : State) (c k : Nat) (hu : (s.co c).st = St.unstarted) (hk : k < s.nExt) :
+    ((s.fut k).claimed = true →
+        (step s (Op.startP c k)).2 = Res.flag false
+        ∧ ((step s (Op.startP c k)).1.co c).st = St.unstarted
+        ∧ ((step s (Op.startP c k)).1.co c).bound = none
+        ∧ ((step s (Op.startP c k)).1.co c).bodyStarts = (s.co c).bodyStarts
+        ∧ (step s (Op.startP c k)).1.fut = s.fut
+        ∧ ∀ c', c' ≠ c → (step s (Op.startP c k)).1.co c' = s.co c')
+    ∧ ((s.fut k).claimed = false →
+        (step s (Op.startP c k)).2 = Res.flag true
+        ∧ ((step s (Op.startP c k)).1.co c).st = St.scheduled
+        ∧ ((step s (Op.startP c k)).1.co c).bound = some k
+        ∧ ((step s (Op.startP c k)).1.fut k).claimed = true) := by
+  constructor
+  · intro hc
+    simp only [step, hu, hk, hc, and_self, if_true, setCo, upd_same, true_and]
+    intro c' hc'; exact upd_ne _ _ hc'
+  · intro hc
+    simp [step, hu, hk, hc, startCoro, setCo, setFut]
+
+/-- **Chain transfer.**  For a future created by `co_await child` / `child.start()` inside coroutine `p` (`owner = p`): the
+only coroutine ever subscribed to it is `p`, at most once; and every suspension of a coroutine is matched by exactly one
+wake-up (`wakes + [currently suspended] = suspends`), so nobody is resumed twice and nobody is resumed spuriously. -/
+theorem c04_chain_transfer {prog : Nat → List Act} {nExt : Nat} {s : State} (h : Reachable prog nExt s) :
+    (∀ f x, s.nExt ≤ f → x ∈ (s.fut f).waiters → (s.fut f).owner = some x)
+    ∧ (∀ f x, (s.fut f).waiters.count x ≤ 1)
+    ∧ (∀ c, (s.co c).wakes + (if (s.co c).st.susp then 1 else 0) = (s.co c).suspends) := by
+  have hi := reachable_inv h
+  refine ⟨?_, ?_, fun c => (hi.co_ok c).wake⟩
+  · intro f x hf hx
+    have hcount := hi.waiters_count x f
+    have hpos : 0 < (s.fut f).waiters.count x := List.count_pos_iff.mpr hx
+    have haw : (s.co x).st.isAw f = true := by
+      cases ha : (s.co x).st.isAw f
+      · rw [ha] at hcount; simp at hcount; omega
+      · rfl
+    exact hi.owner_only x f hf (St.isAw_refs haw)
+  · intro f x; rw [hi.waiters_count x f]; split <;> omega
+
+/-- **No lost wake-up.**  A suspended coroutine is on the chain of exactly the future it awaits, exactly once, and that
+future is not resolved yet; a resolved future has an empty chain (everybody was made resumable by the resolution). -/
+theorem c04_no_lost_wakeup {prog : Nat → List Act} {nExt : Nat} {s : State} (h : Reachable prog nExt s) :
+    (∀ c f ct, (s.co c).st = St.awaiting f ct → (s.fut f).waiters.count c = 1 ∧ (s.fut f).ready = false)
+    ∧ (∀ f, (s.fut f).ready = true → (s.fut f).waiters = []) := by
+  have hi := reachable_inv h
+  refine ⟨?_, fun f hf => (hi.ready_ok f hf).1⟩
+  intro c f ct hs
+  have hcount := hi.waiters_count c f
+  simp [hs, St.isAw] at hcount
+  refine ⟨hcount, ?_⟩
+  cases hr : (s.fut f).ready
+  · rfl
+  · have := (hi.ready_ok f hr).1; rw [this] at hcount; simp at hcount
+
+/-- the end of the child wakes the awaiting parent exactly once and hands over the result: if `j` (body still executing)
+is bound to `f` and `p` is suspended on `f`, then after `j`'s `co_return`/`throw` + `final_awaiter`, `p` is resumable by `f`
+with one more wake-up, `f` holds the outcome, `j`'s frame is destroyed — for every reachable state. -/
+theorem c04_child_end_resumes_parent {prog : Nat → List Act} {nExt : Nat} {s : State} (h : Reachable prog nExt s)
+    (j p f : Nat) (ct : Bool) (o : Outcome) (hb : (s.co j).bound = some f) (hm : (s.co j).st.mid = true)
+    (hp : (s.co p).st = St.awaiting f ct) :
+    ((finish s j o).co p).st = St.resumable f ct ∧ ((finish s j o).co p).wakes = (s.co p).wakes + 1
+    ∧ ((finish s j o).fut f).out = some o ∧ ((finish s j o).fut f).ready = true
+    ∧ ((finish s j o).co j).st = St.done := by
+  have hi := reachable_inv h
+  have hpj : p ≠ j := by intro e; subst e; rw [hp] at hm; simp [St.mid] at hm
+  simp only [finish, hb]
+  rw [finish_bound_eq s j f o hi hm]
+  simp only [upd_ne _ _ hpj, upd_same, wk_of_aw _ f ct hp, delivered, retired, and_self]
+
+/-- **Progress.**  A started coroutine that has not finished can always either take a step or is suspended on a future
+that is not resolved yet — it is never stranded in a state nobody will move (the executor's ordering is C05's business). -/
+theorem c04_progress {prog : Nat → List Act} {nExt : Nat} {s : State} (h : Reachable prog nExt s) (c : Nat)
+    (hs : (s.co c).st.started = true) (hd : (s.co c).st ≠ St.done) :
+    (stepCo s c).2 = Res.unit ∨ ∃ f ct, (s.co c).st = St.awaiting f ct ∧ (s.fut f).ready = false := by
+  cases hst : (s.co c).st with
+  | awaiting f ct => exact Or.inr ⟨f, ct, rfl, ((c04_no_lost_wakeup h).1 c f ct hst).2⟩
+  | absent => simp [hst, St.started] at hs
+  | unstarted => simp [hst, St.started] at hs
+  | dropped => simp [hst, St.started] at hs
+  | done => exact absurd hst hd
+  | scheduled => left; simp [stepCo, hst]
+  | yielded => left; simp [stepCo, hst]
+  | resumable f ct => left; simp [stepCo, hst]
+  | wantAwait f ct => left; simp only [stepCo, hst]; split <;> rfl
+  | running => left; simp only [stepCo, hst]; split <;> rfl
+
+/-! ### non-vacuity: concrete reachable states exercising the hypotheses -/
+
+/-- coroutine 1 `co_await`s child 2, which awaits external future 0; coroutine 3 is detached and throws;
+coroutine 4 is dropped unstarted; coroutine 5 is refused by `start(promise)` on the claimed promise 0 -/
+def demoProg : Nat → List Act
+  | 1 => [Act.awaitChild 2 true true, Act.ret 10]
+  | 2 => [Act.awaitFut 0 true, Act.ret 5]
+  | 3 => [Act.throw 7]
+  | _ => []
+
+def demoOps : List Op :=
+  [Op.create 1, Op.start 1, Op.step 1, Op.step 1, Op.step 2, Op.step 2, Op.step 2,   -- 1 awaits 2 awaits ext 0
+   Op.create 3, Op.detach 3, Op.step 3, Op.step 3,                                    -- detached, throws
+   Op.create 4, Op.dropU 4,
+   Op.setF 0 (Outcome.val 7), Op.create 5, Op.startP 5 0,                             -- refused
+   Op.step 2, Op.step 2, Op.step 1, Op.step 1]
+
+example : Reachable demoProg 1 (run (init demoProg 1) demoOps) := ⟨_, rfl⟩
+example : ((run (init demoProg 1) (demoOps.take 7)).co 1).st = St.awaiting 2 true
+    ∧ ((run (init demoProg 1) (demoOps.take 7)).co 2).st = St.awaiting 0 true := by decide
+example : ((run (init demoProg 1) demoOps).co 1).outcome = some (Outcome.val 22)
+    ∧ ((run (init demoProg 1) demoOps).co 1).st = St.done
+    ∧ ((run (init demoProg 1) demoOps).fut 1).out = some (Outcome.val 22)
+    ∧ ((run (init demoProg 1) demoOps).co 2).deliveredTo = [2]
+    ∧ ((run (init demoProg 1) demoOps).co 3).st = St.done
+    ∧ ((run (init demoProg 1) demoOps).co 3).deliveredTo = []
+    ∧ ((run (init demoProg 1) demoOps).co 4).st = St.dropped
+    ∧ ((run (init demoProg 1) demoOps).co 5).st = St.unstarted
+    ∧ ((run (init demoProg 1) demoOps).co 1).wakes = 1 := by decide
+
 end Cocls.Async
